@@ -173,6 +173,9 @@ type WebPSpec struct {
 	ICCFourCC      string   // default "ICCP"; other value = damage class "flag set but next chunk is not ICCP"
 	Payload        []byte   // bytes after the header inside the bitstream chunk
 	Extra          [][2]any // VP8X: further chunks {fourcc string, data []byte}
+	// FrameTag, when non-zero, replaces the three VP8 frame-tag bytes (key frame bit must stay 0;
+	// bits 1-3 are the profile 0..3, bit 4 show_frame, the rest the first-partition size)
+	FrameTag [3]byte
 }
 
 func riffChunk(b *bytes.Buffer, t *Truth, fourcc string, data []byte, name string) {
@@ -194,7 +197,12 @@ func (s WebPSpec) Build() ([]byte, Truth) {
 	bt := Truth{}
 	switch s.Kind {
 	case "VP8":
-		hdr := []byte{0x10, 0x02, 0x00, 0x9d, 0x01, 0x2a,
+		tag := [3]byte{0x10, 0x02, 0x00}
+		if s.FrameTag != [3]byte{} {
+			tag = s.FrameTag
+			tag[0] &^= 1
+		}
+		hdr := []byte{tag[0], tag[1], tag[2], 0x9d, 0x01, 0x2a,
 			byte(s.W), byte(s.W>>8)&0x3f | s.XScale<<6, byte(s.H), byte(s.H>>8)&0x3f | s.YScale<<6}
 		bt.Fields = append(bt.Fields, Field{Name: "VP8.width", Off: body.Len() + 8 + 6, Len: 2, Kind: "dim", LE: true}, Field{Name: "VP8.height", Off: body.Len() + 8 + 8, Len: 2, Kind: "dim", LE: true})
 		riffChunk(&body, &bt, "VP8 ", append(hdr, s.Payload...), "VP8")
